@@ -550,13 +550,19 @@ def _process_internal_events_without_default_matchers(
                 assert isinstance(event, InternalEvent)
                 started_instance = _get_reference_activated_flow_instance(state, event)
 
-            is_activated_child_flow = (
-                flow_id
-                == state.flow_states[
-                    event.arguments["source_flow_instance_uid"]
-                ].flow_id
-            )
-            if started_instance and not is_activated_child_flow:
+            source_flow_state = state.flow_states[
+                event.arguments["source_flow_instance_uid"]
+            ]
+            is_activated_child_flow = flow_id == source_flow_state.flow_id
+            if (
+                is_activated_child_flow
+                and event.arguments.get("activated", None)
+                and source_flow_state.activated == 0
+            ):
+                # The restart of an activated flow that was deactivated in the meantime
+                # (its last activator has ended): the flow is not started again
+                pass
+            elif started_instance and not is_activated_child_flow:
                 # Activate a flow that already has been activated
 
                 started_instance.activated = started_instance.activated + 1
